@@ -354,7 +354,9 @@ def R8_binders(ctx, rid, core):
         in_loop = any(x[0] == "loop" for x in g)
         loopvars = {bn for x in g if x[0] == "loop" for bn in H.pat_binds(x[1]["pat"])}
         # conditions on the parameter itself (its kind, its name): anything else (is there a scope at all?) is not about the parameter
-        conds = [x for x in g if (x[0] == "if" and any(H.path_local(y) in loopvars for y in H.walk(x[1]) if H.kind(y) == "Path"))
+        # the parameter list itself: the collection the loop runs over
+        listvars = {H.path_local(y) for x in g if x[0] == "loop" for y in H.walk(x[1]["iter"]) if H.kind(y) == "Path"} - {None}
+        conds = [x for x in g if (x[0] == "if" and any(H.path_local(y) in (loopvars | listvars) for y in H.walk(x[1]) if H.kind(y) == "Path"))
                  or (x[0] == "arm" and any("LambdaArg::" in v for v in H.pat_variants(x[1]["pat"])))]
         key = S.norm(n["args"][0], S.Env())
         okk = n["name"] == "shift_remove" and in_loop and not conds and S.contains_call(key, "get_name")
